@@ -668,6 +668,8 @@ def check(vc, prop, tier, seed, t0):
             raise vc.Inconclusive("no case was replayed")
         return rc
     finally:
+        if os.environ.get("VERIF_KEEP"):
+            shutil.copytree(scratch, os.environ["VERIF_KEEP"], dirs_exist_ok=True, ignore=shutil.ignore_patterns("states", "*.st", "*.fp"))
         shutil.rmtree(scratch, ignore_errors=True)
         shutil.rmtree(arena_base, ignore_errors=True)
         os.environ.pop("VERIF_ARENA", None)
